@@ -33,6 +33,8 @@ RULE = (
     "link. Non-trivial: X has >= 2 block kinds and W has depth >= 2 or is include / substitution; distinct by case."
 )
 RULE += (' A link reference definition made inside X is also used by a later directive body (a later nested parse), which must resolve in both spellings.')
+RULE += (' (edges) eleven block kinds (indented code first among them) as the first / last / only block of X through every way '
+         'of nesting (directive, include, sliced include, substitution; used once or twice; inside 0-2 directives).')
 ASSUMPTIONS = [
     "headings are excluded as the statement says; thematic breaks are excluded (docutils has no legal place for a "
     "transition inside an admonition: recorded under C01)",
@@ -385,8 +387,56 @@ def sub_fences(acc, shard, nshards, tier, seed):
     acc.extra["fence_layout_depth"] = maxdepth
 
 
+def _txt(s):
+    return [{"t": "text", "s": s}]
+
+
+EDGE_BLOCKS = {
+    "icode": {"t": "icode", "text": "x = 1\ny = 2"},
+    "code": {"t": "code", "fence": "~", "len": 3, "lang": "", "text": "  indented\n"},
+    "html": {"t": "html", "text": "<div>\nhtml *text*\n</div>"},
+    "table": {"t": "table", "align": ["", ":-"], "head": [_txt("h1"), _txt("h2")], "rows": [[_txt("a"), _txt("b")]]},
+    "quote": {"t": "quote", "ch": [_para("quoted")]},
+    "ul": {"t": "ul", "marker": "-", "tight": True, "items": [[_para("one")], [_para("two")]]},
+    "ol": {"t": "ol", "start": 7, "delim": ")", "tight": False, "items": [[_para("one")], [_para("two")]]},
+    "fieldlist": {"t": "fieldlist", "items": [["field", [_para("alpha")]]]},
+    "div": {"t": "div", "name": "cls", "ch": [_para("alpha")], "len": 3},
+    "target": {"t": "target", "name": "t2"},
+    "refdef": {"t": "refdef", "label": "ref1", "dest": "https://e.org/r"},
+}
+
+
+def sub_edges(acc, shard, nshards, tier, seed):
+    """Every block kind as the first / last / only block of X, through every way of nesting (one directive layer,
+    include, sliced include, substitution, each also used twice and inside a directive): the edges of the inserted
+    text are where a wrapper that trims, re-indents or re-joins it shows."""
+    kn = known()
+    i = 0
+    layer = {"name": "note", "fence": "`", "opts": False, "optstyle": "colon", "blank": 0}
+    modes = [("dir", {}), ("include", {}), ("include", {"slice": True}), ("include", {"twice": True}),
+             ("subst", {}), ("subst", {"twice": True})]
+    for bname, blk in EDGE_BLOCKS.items():
+        for pos in ("first", "last", "only"):
+            x = {"first": [blk, _para("beta")], "last": [_para("alpha"), blk], "only": [blk]}[pos]
+            for inner, extra in modes:
+                if extra.get("twice") and bname in ("refdef", "target"):
+                    continue      # (a second copy would define the same name twice)
+                for nl in ((1, 2) if inner == "dir" else (0, 1)):
+                    i += 1
+                    if i % nshards != shard:
+                        continue
+                    case = {"x": copy.deepcopy(x), "inner": inner, "layers": [dict(layer) for _ in range(nl)],
+                            "outer_use": False, **extra}
+                    for v in check_case(acc, case):
+                        if kn.matches(v):
+                            acc.known_hits[v["signature"]] += 1
+                        elif len(acc.violations) < 8 and all(v["signature"] != w["signature"] for w in acc.violations):
+                            acc.violations.append(v)
+
+
 def plan(tier):
-    return [Sub("fences", sub_fences, 16), Sub("dir", sub_dir, 8), Sub("include", sub_include, 4), Sub("subst", sub_subst, 4)]
+    return [Sub("fences", sub_fences, 16), Sub("dir", sub_dir, 8), Sub("include", sub_include, 4), Sub("subst", sub_subst, 4),
+            Sub("edges", sub_edges, 4)]
 
 
 def replay(sub, input):
